@@ -770,7 +770,10 @@ def _pick_value(rng, view):
     if t.kind == "flag":
         return rng.random() < 0.5
     if t.kind == "float":
-        return rng.choice([0, 1 << (nb - 1), rng.getrandbits(nb), (0x7f800000 if nb == 32 else 0x7ff0000000000000),
+        return rng.choice([0, 0, 1 << (nb - 1), 1 << (nb - 1), rng.getrandbits(nb),
+                           (0x7f800000 if nb == 32 else 0x7ff0000000000000),
+                           (0x7fc00000 if nb == 32 else 0x7ff8000000000000),  # quiet NaN
+                           (0x7fc00001 if nb == 32 else 0x7ff8000000000001),
                            (0x3f800000 if nb == 32 else 0x3ff0000000000000), 1])
     k = rng.random()
     if k < 0.55:
